@@ -981,6 +981,9 @@ impl C20 {
             };
             let pre = &e.preamble;
             if !without.starts_with(pre) {
+                if std::env::var_os("C20_TRACE").is_some() {
+                    eprintln!("c20-trace preamble mismatch: {} (twin: sylt {})", first_diff(&without, pre), a.join(" "));
+                }
                 return Verdict::Discard("preamble-file-is-not-the-emitted-prefix".into());
             }
             let module = m.strip_suffix(".lua").unwrap_or(m);
